@@ -50,7 +50,10 @@ func (p *c13) Init(tier string, seed int64) {
 		"0", "1", "9", "a", "b", "c", "d", "e", "f", "A", "F", "g", "z", "G", "Z", " ", "\t", "\n", "\r", "\f",
 		"\\", "&", "#", ";", "%", "u", "x", "X", "{", "}", "'", "\"", "<", ">", "/", "-", "_", ".", ",", "~", "+", "=",
 		"\x00", "\x7f", "\u0080", "\u009f", " ", "ÿ", "Ā", "߿", "ࠀ", "퟿", "", "�", "￾", "￿",
-		"\U00010000", "\U0001F600", "\U0010FFFF", " ", " ", "\xff", "\xc3", "\xe2\x82",
+		"\U00010000", "\U0001F600", "\U0010FFFF", " ", " ",
+		// multi-character tokens: things that look like the escapers' own output
+		"&amp;", "&lt;", "&gt;", "&quot;", "&#39;", "&#x27;", "&#60;", "&LT;", "&amp", "&nbsp;", "\\u0041", "\\x41", "\\41 ", "\\000041", "%41", "%u0041", "%2541", "\\\\", "\\\"", "\\n",
+		"\xff", "\xc3", "\xe2\x82",
 	}
 	p.nPairs = len(p.alpha)
 	p.nRand = p.pick(20000, 400000)
@@ -237,6 +240,14 @@ func (p *c13) Run(i int) (res fw.Result) {
 		for k := range escapers {
 			p.checkString(&res, &escapers[k], s, split)
 			res.Evals++
+			// the output of one escaper is input like any other for all of them
+			if i%4 == 1 {
+				out := escapers[k].fn(s)
+				for k2 := range escapers {
+					p.checkString(&res, &escapers[k2], out, 0)
+					res.Evals++
+				}
+			}
 		}
 		res.UniqueNT = 0
 		res.Sigs = append(res.Sigs, s)
@@ -246,7 +257,7 @@ func (p *c13) Run(i int) (res fw.Result) {
 }
 
 func (p *c13) Rule() string {
-	return "exhaustive: every Unicode scalar value U+0000..U+10FFFF and every byte 0x80..0xFF as a one-character string, and every ordered pair over a 64-symbol boundary alphabet (hex digits, non-hex letters, white space, backslash, & # ; % u x, quotes, NUL, DEL, C1 controls, plane boundaries, U+2028/9, invalid bytes), each through all 5 escapers; plus seeded random strings (length<=200) over that alphabet and random Unicode. Oracles: output matches the escaper's inert grammar; the standard decoder of the target context (HTML5 character references, ECMAScript string escapes with surrogate pairing, CSS Syntax 3 escapes, RFC 3986 percent-decoding) gives the input back for valid UTF-8 (html_attr: control characters stand for their deliberate replacement); escape(a+b)=escape(a)+escape(b). Non-trivial = the escaper changed the input; enumerated cases are distinct by construction, random strings are deduplicated by content."
+	return "exhaustive: every Unicode scalar value U+0000..U+10FFFF and every byte 0x80..0xFF as a one-character string, and every ordered pair over an 84-symbol boundary alphabet (20 multi-character tokens that look like escaper output: &amp; &lt; &#39; &#x27; \\u0041 \\x41 %41 ...; hex digits, non-hex letters, white space, backslash, & # ; % u x, quotes, NUL, DEL, C1 controls, plane boundaries, U+2028/9, invalid bytes), each through all 5 escapers; plus seeded random strings (length<=200) over that alphabet and random Unicode, a quarter of them also fed back in after escaping (5x5 escaper cross product). Oracles: output matches the escaper's inert grammar; the standard decoder of the target context (HTML5 character references, ECMAScript string escapes with surrogate pairing, CSS Syntax 3 escapes, RFC 3986 percent-decoding) gives the input back for valid UTF-8 (html_attr: control characters stand for their deliberate replacement); escape(a+b)=escape(a)+escape(b). Non-trivial = the escaper changed the input; enumerated cases are distinct by construction, random strings are deduplicated by content."
 }
 
 func (p *c13) Assumptions() []string {
